@@ -862,7 +862,12 @@ def run(ctx):
     env = ctx.san_env()
     quick = ctx.quick()
     rng = ctx.rng
-    if ctx.replay:
+    nf_replay = False; rp = {}
+    if ctx.replay and json.load(open(ctx.replay)).get("kind", "").startswith("newtonfl"):
+        nf_replay = True; jobs = []
+    elif os.environ.get("C04_PART") == "newtonfl":
+        jobs = []
+    elif ctx.replay:
         rp = json.load(open(ctx.replay))
         jobs = [rp["job"]]
         for j in jobs:
@@ -982,7 +987,8 @@ def run(ctx):
                       % (PRIMNAME[key.split(":")[0]], len(lst), pin_n[key], job["name"], rec["cmd"][:80], rec["out"][:120], pv),
                       replay_obj(job, {"cmd": rec["cmd"], "out": rec["out"]}), no_input=True)
     ctx.proof_violation_if_broken(search=lambda: len(viol_prims) > 0)
-    cov = {"evaluations": evaluations, "distinct_nontrivial": len(nontrivial),
+    nfl = newtonfl_tie(ctx) if (not ctx.replay or nf_replay) else None
+    cov = {"newtonfl": nfl, "evaluations": evaluations, "distinct_nontrivial": len(nontrivial),
            "rule": "one evaluation = one call of a radius primitive (one Newton call, or one call of a radii routine on n approximations); "
                    "non-trivial+distinct = calls whose finite radius/radii the oracle certified (root inside the Newton disc; all roots covered and every component count exact)",
            "jobs": len(jobs), "histogram": dict(stats), "pinned_calls": dict(pin_n), "pin_mismatches": {k: len(v) for k, v in pin_bad.items()},
@@ -1011,3 +1017,462 @@ def unfr(x):
         y = [unfr(v) for v in x]
         return tuple(y) if len(y) == 2 and all(isinstance(v, Fr) for v in y) else y
     return x
+
+
+# ============================================================================= bit-for-bit tie of coq/Radius/NewtonCoded.v
+# harness/c04_newtonfl.c exports, per call of mps_polynomial_{f,d,m}newton, the arrays the primitive reads, the point, the
+# entry radius, the outputs and the recorded cplx_mod / cdpe_mod / mpc_get_cdpe calls (their arguments are the locals p, p1);
+# bin/newtonfl (extracted from Radius/NewtonExec.v = NewtonCoded.v instantiated with Flocq binary64 / the DPE model) replays
+# the call from the same arrays.  Everything must agree bit for bit; the error term E of the code is judged exactly against
+# |p^ - q(z)| (q = the polynomial with exactly the coefficients the library reads); the measurable hypotheses of the theorems
+# (modulus accuracy uh, moduli table) are measured exactly.
+U53 = Fr(1, 1 << 53)
+
+
+def nf_hexq(x): return hq(x)
+
+
+def nf_dbl_ok(x):
+    return dbl(x) == x
+
+
+def nf_polys(rng, quick):
+    """(name, class, coefficients low first as (Fr, Fr), float_ok)"""
+    out = []
+    def rd(scale=30, cplx=True):
+        m = Fr(rng.getrandbits(53) | (1 << 52), 1 << 52) * rng.choice([-1, 1])
+        return m * pow2(rng.randint(-scale, scale))
+    K = 2 if quick else 8
+    for t in range(26 * K):
+        n = 1 + t % 25
+        cplx = t % 3 != 0
+        out.append(("randdbl%d" % t, "random-doubles", [(rd(), rd() if cplx else Fr(0)) for _ in range(n + 1)], True, []))
+    for t in range(14 * K):
+        n = rng.randint(1, 12)
+        co = [(Fr(rng.randint(-9, 9)), Fr(rng.randint(-9, 9)) if t % 2 else Fr(0)) for _ in range(n + 1)]
+        if co[n] == (0, 0): co[n] = (Fr(3), Fr(0))
+        if co[0] == (0, 0): co[0] = (Fr(1), Fr(0))
+        out.append(("int%d" % t, "small-integers", co, True, []))
+    for n in ([1, 2, 3, 5, 8, 12] if quick else range(1, 16)):
+        a = rng.choice([(Fr(1), Fr(0)), (Fr(-3, 4), Fr(1, 2)), (Fr(1, 8), Fr(0)), (Fr(3), Fr(-2))])
+        out.append(("pow%d" % n, "(x-a)^n", expand_roots([a] * n), True, [a]))
+    for n in ([2, 3, 7, 16, 25] if quick else [2, 3, 4, 7, 11, 16, 20, 25]):
+        co = [(Fr(0), Fr(0))] * (n + 1); co[0] = (Fr(-1), Fr(0)); co[n] = (Fr(1), Fr(0))
+        out.append(("unity%d" % n, "x^n-1", co, True, [(Fr(1), Fr(0))] + ([(Fr(-1), Fr(0))] if n % 2 == 0 else []) + ([(Fr(0), Fr(1))] if n % 4 == 0 else [])))
+    for t in range(8 * K):
+        n = rng.randint(3, 20)
+        co = [(rd(8), rd(8)) if rng.random() < 0.5 else (Fr(0), Fr(0)) for _ in range(n + 1)]
+        co[0] = (rd(8), Fr(0)); co[n] = (rd(8), rd(8))
+        out.append(("holes%d" % t, "zero-coefficients", co, True, []))
+    for t in range(6 * K):
+        rs = [(Fr(rng.randint(-6, 6)), Fr(rng.randint(-3, 3)) if t % 2 else Fr(0)) for _ in range(rng.randint(1, 6))]
+        out.append(("introots%d" % t, "integer-roots", expand_roots(rs, rng.choice([1, 2, -3])), True, rs))
+    out.append(("x2+1", "null-derivative", [(Fr(1), Fr(0)), (Fr(0), Fr(0)), (Fr(1), Fr(0))], True, [(Fr(0), Fr(1))]))
+    out.append(("x4+x2+3", "null-derivative", [(Fr(3), Fr(0)), (Fr(0), Fr(0)), (Fr(1), Fr(0)), (Fr(0), Fr(0)), (Fr(1), Fr(0))], True, []))
+    for t in range(8 * K):
+        n = rng.randint(1, 8); ce = rng.choice([900, -900]); se = rng.choice([0, 60, -60])
+        co = [(rd(4) * pow2(ce + se * (n - i)), rd(4) * pow2(ce + se * (n - i))) for i in range(n + 1)]
+        out.append(("scaled%d" % t, "double-range-limits", co, all(nf_dbl_ok(c[0]) and nf_dbl_ok(c[1]) for c in co), []))
+    for t in range(8 * K):
+        n = rng.randint(1, 6); ce = rng.choice([3000, -3000, 1200, -1500]); se = rng.choice([0, 400, -400])
+        co = [(rd(4) * pow2(ce + se * (n - i)), rd(4) * pow2(ce + se * (n - i)) if t % 2 else Fr(0)) for i in range(n + 1)]
+        out.append(("huge%d" % t, "beyond-double-range", co, False, []))
+    return out
+
+
+def nf_points(rng, name, cls, co, nroots):
+    """[(tag, (re, im))] exact dyadic points with <= 53 significant bits per component"""
+    pts = []
+    def rz(lo, hi):
+        d = rdir(rng); r = Fr(rng.uniform(lo, hi))
+        return ctrunc((d[0] * r, d[1] * r), 52)
+    for _ in range(3): pts.append(("inside", rz(0.01, 0.98)))
+    for _ in range(3):
+        e = rng.randint(1, 60); d = rdir(rng)
+        pts.append(("outside", ctrunc((d[0] * pow2(e) * Fr(1 + rng.random()), d[1] * pow2(e) * Fr(1 + rng.random())), 52)))
+    pts.append(("outside-near", rz(1.05, 3.0)))
+    for z in [(Fr(1), Fr(0)), (Fr(0), Fr(-1)), (Fr(3, 5), Fr(4, 5)), (Fr(1) + FEPS, Fr(0)), (Fr(1) - FEPS / 2, Fr(0)), (Fr(0), Fr(1) + 3 * FEPS)]:
+        pts.append(("unit-circle", z))
+    pts.append(("unit-circle", ctrunc(rdir(rng), 52)))
+    pts.append(("real", (ctrunc((Fr(rng.uniform(-2, 2)), Fr(0)), 52)[0], Fr(0))))
+    pts.append(("imaginary", (Fr(0), ctrunc((Fr(rng.uniform(-2, 2)), Fr(0)), 52)[0])))
+    pts.append(("zero", (Fr(0), Fr(0))))
+    for w in nroots[:4]:
+        for k in (rng.randint(4, 20), rng.randint(30, 44), rng.randint(45, 51), 52):
+            d = rdir(rng)
+            pts.append(("root-2^-%d" % (k // 10 * 10), ctrunc((w[0] + d[0] * pow2(-k) * max(abs(w[0]), abs(w[1]), Fr(1, 1 << 30)), w[1] + d[1] * pow2(-k) * max(abs(w[0]), abs(w[1]), Fr(1, 1 << 30))), 52)))
+        pts.append(("root-rounded", ctrunc(w, 52)))
+    return pts
+
+
+def nf_hint_roots(co):
+    """untrusted numerical roots (numpy) to aim points at the `again' test"""
+    try:
+        import numpy as np
+        c = [complex(float(x[0]), float(x[1])) for x in co]
+        if any(math.isinf(abs(v)) or math.isnan(abs(v)) for v in c): return []
+        r = np.roots(list(reversed(c)))
+        return [(Fr(float(v.real)), Fr(float(v.imag))) for v in r if math.isfinite(v.real) and math.isfinite(v.imag)]
+    except Exception:
+        return []
+
+
+def nf_r0(rng, z):
+    t = rng.random()
+    if t < 0.45: return "max 0"
+    if t < 0.6: return "1 %d" % rng.randint(-250, -100)
+    a = max(abs(z[0]), abs(z[1]), Fr(1, 1 << 40))
+    return "%s %d" % (hq(Fr(1 + rng.random())), e2e._ilog2_floor(a) - rng.randint(0, 58))
+
+
+def nf_bits_d(h):
+    """exact value of a binary64 pattern; None for inf / nan"""
+    return S.fr_of_dhex(h)
+
+
+def nf_rd(m, e):
+    """exact value of an rdpe 'H E'; None for non-finite mantissas and for exponents beyond +-200000 (RDPE_MAX ...)"""
+    v = S.fr_of_dhex(m)
+    if v is None: return None
+    if v == 0: return Fr(0)
+    if abs(int(e)) > 200000: return None
+    return v * pow2(int(e))
+
+
+def nf_rd_ge(a, b):
+    """a >= b for two normalised non-negative rdpe given as (H, E) token pairs"""
+    ma, mb = S.fr_of_dhex(a[0]), S.fr_of_dhex(b[0])
+    if ma is None or mb is None: return False
+    if mb == 0: return True
+    if ma == 0: return False
+    return (int(a[1]), ma) >= (int(b[1]), mb)
+
+
+def nf_isnan(h):
+    u = int(h, 16); return (u >> 52) & 0x7FF == 0x7FF and (u & ((1 << 52) - 1)) != 0
+
+
+def nf_same(a, b):
+    return a == b or (nf_isnan(a) and nf_isnan(b))
+
+
+def nf_relerr_mod(arg, res):
+    """| res - |arg| | / |arg| in units of u = 2^-53 (float), exact inputs"""
+    if arg is None or res is None or arg[0] is None or arg[1] is None: return None
+    m = cabs(arg)
+    if m == 0: return 0.0 if res == 0 else float("inf")
+    return float(abs(res - m) / m / U53)
+
+
+def nf_inv_eq(zr, zi):
+    """cplx_inv_eq of mt.c in IEEE doubles (Python floats)"""
+    DM = 1.7976931348623157e308
+    if abs(zr) > abs(zi):
+        d1 = zi / zr; q = 1.0 + d1 * d1
+        d2 = 0.0 if DM / q < abs(zr) else 1.0 / (zr * q)
+        return (d2, -d2 * d1)
+    d1 = zr / zi; q = 1.0 + d1 * d1
+    d2 = 0.0 if DM / q < abs(zr) else 1.0 / (zi * q)
+    return (d2 * d1, -d2)
+
+
+def newtonfl_tie(ctx):
+    import time as _t, resource
+    t0 = _t.time(); c0 = resource.getrusage(resource.RUSAGE_CHILDREN)
+    quick = ctx.quick(); rng = ctx.rng
+    harness = ctx.compile_harness(["c04_newtonfl.c"], "c04_newtonfl", mode="san",
+                                  extra_ldflags="-Wl,--wrap=cplx_mod,--wrap=cdpe_mod,--wrap=mpc_get_cdpe")
+    env = ctx.san_env()
+    st = collections.Counter(); meas = collections.defaultdict(float); samples = []
+    if ctx.replay:
+        rp = json.load(open(ctx.replay))
+        batches = [[(rp["name"], rp["cls"], None, rp["text"])]]
+    else:
+        polys = nf_polys(rng, quick)
+        items = []
+        for name, cls, co, fok, xroots in polys:
+            n = len(co) - 1
+            roots = nf_hint_roots(co) if fok else []
+            prng = random.Random(rng.getrandbits(32))
+            lines = ["P M %d " % n + " ".join("%s %s" % (hq(c[0]), hq(c[1])) for c in co)]
+            pts = nf_points(prng, name, cls, co, roots)
+            for tag, z in pts:
+                if fok: lines.append("XF %s %s" % (hq(z[0]), hq(z[1])))
+                zz = split_dpe(z)
+                lines.append("XD %s %d %s %d %s" % (hq(zz[0]), zz[1], hq(zz[2]), zz[3], nf_r0(prng, z)))
+            if not fok:
+                for _ in range(8):
+                    e = prng.choice([-2500, -700, 700, 2500, 0]); d = rdir(prng)
+                    lines.append("XD %s %d %s %d %s" % (hq(ctrunc((d[0], Fr(0)), 52)[0]), e, hq(ctrunc((d[1], Fr(0)), 52)[0]), e, nf_r0(prng, (pow2(max(-900, min(900, e))), Fr(0)))))
+            xpts = []
+            for w in xroots[:3]:
+                xpts.append(("exact-root", w))
+                for k in (3, 8, 20, 40, 50):
+                    d = rdir(prng); xpts.append(("root+2^-%d" % k, ctrunc((w[0] + d[0] * pow2(-k), w[1] + d[1] * pow2(-k)), 52)))
+            for tag, z in xpts:
+                if fok: lines.append("XF %s %s" % (hq(z[0]), hq(z[1])))
+                zz = split_dpe(z)
+                for _ in range(2): lines.append("XD %s %d %s %d %s" % (hq(zz[0]), zz[1], hq(zz[2]), zz[3], nf_r0(prng, z)))
+            for tag, z in pts[::2] + xpts:
+                prec = prng.choice([64, 100, 128, 256, 512])
+                lines.append("XM %d %s %s %s" % (prec, hq(z[0]), hq(z[1]), nf_r0(prng, z)))
+            items.append((name, cls, co, "\n".join(lines) + "\n"))
+        nb = 8
+        batches = [items[i::nb] for i in range(nb)]
+    def run_batch(b):
+        text = "".join(x[3] for x in b)
+        rc, out, err = vf.sh([harness], input=text, timeout=600, env=env)
+        return rc, out, err, text
+    ctx.log('newtonfl: inputs generated %.1fs' % (_t.time() - t0))
+    results = e2e.par_map(run_batch, batches, workers=4)
+    ctx.log('newtonfl: harness done %.1fs' % (_t.time() - t0))
+    calls = []        # dicts
+    for b, (rc, out, err, text) in zip(batches, results):
+        if rc != 0:
+            ctx.violation("harness-fault:newtonfl:rc%d" % rc, "c04_newtonfl stopped with exit code %d: %s" % (rc, err[-400:].replace("\n", " | ")),
+                          {"kind": "newtonfl", "name": "batch", "cls": "batch", "text": text})
+            st["harness-fault"] += 1; continue
+        inl = [l for l in text.split("\n") if l.strip()]
+        outl = [l for l in out.split("\n") if l.strip()]
+        if len(inl) != len(outl):
+            raise vf.InfraError("c04_newtonfl: %d output lines for %d commands" % (len(outl), len(inl)))
+        cur = None; k = -1
+        for il, ol in zip(inl, outl):
+            if il.startswith("P "):
+                k += 1; cur = {"name": b[k][0], "cls": b[k][1], "pline": il, "head": ol.split()}
+                continue
+            calls.append({"poly": cur, "cmd": il, "out": ol.split()})
+    # ---- model lines
+    mlines = []
+    for c in calls:
+        t = c["out"]; n = int(t[1]); c["n"] = n; kind = t[0]
+        if kind == "XF":
+            i = 2; c["fpc"] = t[i:i + 2 * (n + 1)]; i += 2 * (n + 1); c["fap"] = t[i:i + n + 1]; i += n + 1
+            c["z"] = t[i:i + 2]; i += 2; c["again"] = t[i]; c["corr"] = t[i + 1:i + 3]; c["rad"] = t[i + 3]; i += 4
+            kk = int(t[i]); i += 1; c["recs"] = [(t[i + 3 * j], t[i + 3 * j + 1], t[i + 3 * j + 2]) for j in range(kk)]
+            mlines.append("F %d %s %s %s" % (n, " ".join(c["fpc"]), " ".join(c["fap"]), " ".join(c["z"])))
+        elif kind == "XD":
+            i = 2; c["dpc"] = t[i:i + 4 * (n + 1)]; i += 4 * (n + 1); c["dap"] = t[i:i + 2 * (n + 1)]; i += 2 * (n + 1)
+            c["z"] = t[i:i + 4]; i += 4; c["r0"] = t[i:i + 2]; i += 2; c["again"] = t[i]; c["corr"] = t[i + 1:i + 5]; c["rad"] = t[i + 5:i + 7]; i += 7
+            kk = int(t[i]); i += 1; c["recs"] = [(t[i + 6 * j:i + 6 * j + 4], t[i + 6 * j + 4:i + 6 * j + 6]) for j in range(kk)]
+            mlines.append("D %d %s %s %s %s" % (n, " ".join(c["dpc"]), " ".join(c["dap"]), " ".join(c["z"]), " ".join(c["r0"])))
+        else:
+            c["wp"] = int(t[2]); i = 3; c["mfpc"] = t[i:i + 2 * (n + 1)]; i += 2 * (n + 1); c["dap"] = t[i:i + 2 * (n + 1)]; i += 2 * (n + 1)
+            c["zm"] = t[i:i + 2]; i += 2; c["r0"] = t[i:i + 2]; i += 2; c["again"] = t[i]; c["rad"] = t[i + 1:i + 3]; i += 3
+            g = int(t[i]); i += 1; c["gc"] = [(t[i + 6 * j:i + 6 * j + 2], t[i + 6 * j + 2:i + 6 * j + 6]) for j in range(g)]; i += 6 * g
+            kk = int(t[i]); i += 1; c["recs"] = [(t[i + 6 * j:i + 6 * j + 4], t[i + 6 * j + 4:i + 6 * j + 6]) for j in range(kk)]
+            # dense path: get_cdpe calls are (mvalue), (p), (p1), (mvalue inside mpc_rmod); p == 0: (mvalue), (p1);
+            # NULL DERIVATIVE with p != 0: (mvalue) only.  A polynomial with a zero coefficient is `sparse' for the library:
+            # mps_mnewton then takes the parallel-Horner path, which NewtonCoded.v does not model.
+            gc = c["gc"]
+            if c["poly"]["head"][2] != "0":
+                c["skip"] = "m-sparse-path-not-modelled"; mlines.append("T 0 0"); continue
+            if len(gc) == 4:
+                zc, pc, p1c = gc[0][1], gc[1][1], gc[2][1]; c["pm"] = gc[1][0]; c["p1m"] = gc[2][0]
+            elif len(gc) == 2:      # p == 0: (mvalue), (p1);  p is exactly zero
+                zc, p1c = gc[0][1], gc[1][1]; pc = ["0000000000000000", "0"] * 2; c["pm"] = ["0:0@0", "0:0@0"]; c["p1m"] = gc[1][0]
+            elif len(gc) == 1:      # NULL DERIVATIVE with p != 0: p, p1 never converted
+                c["skip"] = "m-null-derivative-unobserved"; mlines.append("T 0 0"); continue
+            else:
+                c["skip"] = "m-unexpected-number-of-conversions"; mlines.append("T 0 0"); continue
+            c["zc"] = zc; c["pc"] = pc; c["p1c"] = p1c
+            mlines.append("M %d %d %s %s %s %s %s" % (n, 2 - c["wp"], " ".join(c["dap"]), " ".join(zc), " ".join(c["r0"]), " ".join(pc), " ".join(p1c)))
+    ctx.log('newtonfl: %d model lines prepared %.1fs' % (len(mlines), _t.time() - t0))
+    t1 = _t.time()
+    mout = ctx.run_model_lines("newtonfl", mlines, workers=4) if mlines else []
+    tmodel = _t.time() - t1
+    # conversions mpc_get_cdpe through the model (sample)
+    conv = []
+    for c in calls:
+        if c["out"][0] == "XM":
+            for (inp, outp) in c["gc"][:3]:
+                for tk, o in ((inp[0], outp[0:2]), (inp[1], outp[2:4])):
+                    body = tk.split("@")[0]; digs, e16 = body.split(":")
+                    if digs in ("0", ""): continue
+                    neg = digs.startswith("-"); d = digs[1:] if neg else digs
+                    conv.append((("T %s%s %d" % ("-" if neg else "", d, 4 * (int(e16) - len(d)))), o))
+    conv = conv[:ctx.pick(1500, 20000)]
+    cout = ctx.run_model_lines("newtonfl", [x[0] for x in conv], workers=4) if conv else []
+    for (ln, o), m in zip(conv, cout):
+        st["conv:mpf->rdpe"] += 1
+        if m.split() != o: st["conv-mismatch"] += 1; samples.append({"conversion": ln, "library": o, "model": m})
+    if st["conv-mismatch"]:
+        ctx.violation("correspondence:newtonfl:mpc_get_cdpe", "the model of mpf_get_rdpe (truncation to 53 bits) disagrees with the library on %d of %d conversions" % (st["conv-mismatch"], st["conv:mpf->rdpe"]),
+                      {"kind": "newtonfl-conv"}, no_input=True)
+    ctx.log('newtonfl: model done %.1fs' % (_t.time() - t0))
+    # ---- compare + judge
+    mism = collections.defaultdict(list); efail = collections.defaultdict(list)
+    EPSD = 2.0 ** -52
+    for c, ml in zip(calls, mout):
+        kind = c["out"][0]; n = c["n"]; m = ml.split()
+        if c.get("skip"): st["skipped:" + c["skip"]] += 1; continue
+        if m and m[0] == "ERR": raise vf.InfraError("newtonfl driver: %s on %s" % (ml, c["cmd"]))
+        if kind == "XF":
+            br = {"0": "le1", "1": "gt1", "2": "gt1-den0"}[m[0]]
+            mp, mp1, map_, mabsp, magain, mcorr, mrad = m[1:3], m[3:5], m[5], m[6], m[7], m[8:10], m[10]
+            key = "f:" + br; st["calls:" + key] += 1; c["branch"] = key
+            st["again=%s:%s" % (magain, key)] += 1
+            diffs = []
+            if not nf_same(mrad, c["rad"]): diffs.append("rad")
+            if magain != c["again"]: diffs.append("again")
+            if not (nf_same(mcorr[0], c["corr"][0]) and nf_same(mcorr[1], c["corr"][1])): diffs.append("corr")
+            recs = c["recs"]
+            if len(recs) >= 2:
+                if not (nf_same(recs[1][0], mp[0]) and nf_same(recs[1][1], mp[1])): diffs.append("p")
+                if not nf_same(recs[1][2], mabsp): diffs.append("absp")
+            if br == "le1" and len(recs) >= 3 and not (nf_same(recs[2][0], mp1[0]) and nf_same(recs[2][1], mp1[1])): diffs.append("p1")
+            if br == "le1" and len(recs) != 3: diffs.append("number-of-modulus-calls")
+            for d in diffs: mism[(key, d)].append(c)
+            if not diffs: st["bitwise-equal:" + key] += 1
+            # measured modulus accuracy
+            for (ar, ai, rs) in recs:
+                e = nf_relerr_mod((nf_bits_d(ar), nf_bits_d(ai)), nf_bits_d(rs))
+                if e is not None and e != float("inf"): meas["uh_cplx_mod"] = max(meas["uh_cplx_mod"], e); st["modulus-calls:cplx_mod"] += 1
+            cs = [(nf_bits_d(c["fpc"][2 * i]), nf_bits_d(c["fpc"][2 * i + 1])) for i in range(n + 1)]
+            for i in range(n + 1):
+                e = nf_relerr_mod(cs[i], nf_bits_d(c["fap"][i]))
+                if e is not None and e != float("inf"): meas["uh_fap"] = max(meas["uh_fap"], e)
+            # error term: |p^ - q(z)| <= E
+            z = (nf_bits_d(c["z"][0]), nf_bits_d(c["z"][1])); ph = (nf_bits_d(mp[0]), nf_bits_d(mp[1])); ap = nf_bits_d(map_)
+            if None in ph or ap is None or None in z: st["error-term:non-finite:" + key] += 1
+            else:
+                E = Fr(float(ap) * (4 * n * EPSD))
+                if br == "le1":
+                    ex = peval(cs, z)
+                else:
+                    zi = nf_inv_eq(float(z[0]), float(z[1]))
+                    if not all(math.isfinite(v) for v in zi): ex = None
+                    else: ex = peval(list(reversed(cs)), (Fr(zi[0]), Fr(zi[1])))
+                if ex is not None:
+                    d = csub(ph, ex); st["error-term:judged:" + key] += 1
+                    if d[0] * d[0] + d[1] * d[1] > E * E: efail[key].append(c)
+                    elif E > 0 and (d[0] != 0 or d[1] != 0):
+                        r = float(cabs(d) / E); meas["max|p^-p|/E:" + key] = max(meas["max|p^-p|/E:" + key], r)
+        else:
+            mp, mp1, map_, mabsp, magain, mcorr, mrad = m[0:4], m[4:8], m[8:10], m[10:12], m[12], m[13:17], m[17:19]
+            pzero = all(nf_bits_d(mp[j]) == 0 for j in (0, 2)); p1zero = all(nf_bits_d(mp1[j]) == 0 for j in (0, 2))
+            pfx = "d" if kind == "XD" else "m"
+            if not pzero and p1zero: br = "null-derivative"
+            elif pzero: br = "p0"
+            elif magain == "1": br = "again"
+            elif kind == "XM": br = "not-again"
+            else:
+                br = "not-again-kept" if nf_rd_ge(mrad, c["r0"]) else "not-again-lowered"
+            key = pfx + ":" + br; st["calls:" + key] += 1; c["branch"] = key
+            diffs = []
+            if mrad != c["rad"]: diffs.append("rad")
+            if magain != c["again"]: diffs.append("again")
+            recs = c["recs"]
+            if kind == "XD":
+                if mcorr != c["corr"]: diffs.append("corr")
+                if br != "null-derivative":
+                    if len(recs) != 3: diffs.append("number-of-modulus-calls")
+                    else:
+                        if recs[1][0] != mp: diffs.append("p")
+                        if recs[1][1] != mabsp: diffs.append("absp")
+                        if recs[2][0] != mp1: diffs.append("p1")
+            for d in diffs: mism[(key, d)].append(c)
+            if not diffs: st["bitwise-equal:" + key] += 1
+            for (a, rs) in recs:
+                e = nf_relerr_mod((nf_rd(a[0], a[1]), nf_rd(a[2], a[3])), nf_rd(rs[0], rs[1]))
+                if e is not None and e != float("inf"): meas["uh_cdpe_mod"] = max(meas["uh_cdpe_mod"], e); st["modulus-calls:cdpe_mod"] += 1
+            if br == "null-derivative": continue
+            if kind == "XD":
+                cs = [(nf_rd(*c["dpc"][4 * i:4 * i + 2]), nf_rd(*c["dpc"][4 * i + 2:4 * i + 4])) for i in range(n + 1)]
+                z = (nf_rd(*c["z"][0:2]), nf_rd(*c["z"][2:4])); ph = (nf_rd(*mp[0:2]), nf_rd(*mp[2:4]))
+                epsE = Fr(EPSD * n * 4)
+            else:
+                cs = [(S.fr_of_mpf(c["mfpc"][2 * i])[0], S.fr_of_mpf(c["mfpc"][2 * i + 1])[0]) for i in range(n + 1)]
+                z = (S.fr_of_mpf(c["zm"][0])[0], S.fr_of_mpf(c["zm"][1])[0])
+                ph = (S.fr_of_mpf(c["pm"][0])[0], S.fr_of_mpf(c["pm"][1])[0])
+                epsE = None
+                # conversion accuracy of p^ (mpf -> 53 bits) enters the modulus hypothesis
+                e = nf_relerr_mod(ph, nf_rd(*mabsp))
+                if e is not None and e != float("inf") and not pzero: meas["uh_m_absp(conv+mod)"] = max(meas["uh_m_absp(conv+mod)"], e)
+            for i in range(n + 1):
+                e = nf_relerr_mod(cs[i], nf_rd(*c["dap"][2 * i:2 * i + 2]))
+                if e is not None and e != float("inf"): meas["uh_dap:" + pfx] = max(meas["uh_dap:" + pfx], e)
+            apm = nf_bits_d(map_[0])
+            if apm is None or None in ph or None in z: st["error-term:non-finite:" + key] += 1; continue
+            if kind == "XD":
+                E = Fr(float(apm) * float(epsE)) * pow2(int(map_[1]))          # rdpe_mul_d: mantissa product in double
+            else:
+                epm, epe = math.frexp(float(n)); E = Fr(float(apm) * epm) * pow2(int(map_[1]) + epe + 2 - c["wp"])
+            ex = peval(cs, z); d = csub(ph, ex); st["error-term:judged:" + key] += 1
+            if d[0] * d[0] + d[1] * d[1] > E * E: efail[key].append(c)
+            elif E > 0 and (d[0] != 0 or d[1] != 0):
+                meas["max|p^-p|/E:" + key] = max(meas["max|p^-p|/E:" + key], float(cabs(d) / E))
+        if len(samples) < 5 and c.get("branch", "").endswith(("le1", "again")) and rng.random() < 0.01:
+            samples.append({"poly": c["poly"]["name"], "cmd": c["cmd"][:90], "branch": c["branch"], "model": ml[:160]})
+    ctx.log('newtonfl: compared %.1fs; mismatches %s; error-term failures %s' % (_t.time() - t0, {k: len(v) for k, v in mism.items()}, {k: len(v) for k, v in efail.items()}))
+    for (k_, f_), l_ in list(mism.items())[:6]: ctx.log('   first %s %s: %s | %s | %s' % (k_, f_, l_[0]['poly']['pline'], l_[0]['cmd'], ' '.join(l_[0]['out'])))
+    # ---- verdicts
+    def rootfree(c):
+        """oracle verdict for the disc the LIBRARY returned (exact polynomial = what the library reads)"""
+        try:
+            kind = c["out"][0]; n = c["n"]
+            if kind == "XF":
+                cs = [(nf_bits_d(c["fpc"][2 * i]), nf_bits_d(c["fpc"][2 * i + 1])) for i in range(n + 1)]; z = (nf_bits_d(c["z"][0]), nf_bits_d(c["z"][1])); r = nf_bits_d(c["rad"])
+            elif kind == "XD":
+                cs = [(nf_rd(*c["dpc"][4 * i:4 * i + 2]), nf_rd(*c["dpc"][4 * i + 2:4 * i + 4])) for i in range(n + 1)]; z = (nf_rd(*c["z"][0:2]), nf_rd(*c["z"][2:4])); r = nf_rd(*c["rad"])
+            else:
+                cs = [(S.fr_of_mpf(c["mfpc"][2 * i])[0], S.fr_of_mpf(c["mfpc"][2 * i + 1])[0]) for i in range(n + 1)]; z = (S.fr_of_mpf(c["zm"][0])[0], S.fr_of_mpf(c["zm"][1])[0]); r = nf_rd(*c["rad"])
+            if r is None or r < 0 or None in z: return False
+            cs = strip_zero(cs)
+            while len(cs) > 1 and cs[-1] == (0, 0): cs.pop()
+            if len(cs) < 2: return False
+            if n > 12: return False
+            orc = Oracle(cs)
+            ok = orc.certify(target_radius_log2=-120, timeout=30)
+            res = ok and e2e.count_discs(orc, [(z[0], z[1], r)])[0][1] == 0
+            orc.close(); return bool(res)
+        except Exception:
+            return False
+    def robj(c): return {"kind": "newtonfl", "name": c["poly"]["name"], "cls": c["poly"]["cls"], "text": c["poly"]["pline"] + "\n" + c["cmd"] + "\n", "out": " ".join(c["out"])[:2000]}
+    PRIM = {"f": "mps_monomial_poly_fnewton", "d": "mps_monomial_poly_dnewton", "m": "mps_monomial_poly_mnewton"}
+    for (key, field), lst in sorted(mism.items()):
+        st["bitwise-mismatch:%s:%s" % (key, field)] = len(lst)
+        bad = [c for c in lst[:2] if rootfree(c)]
+        if bad:
+            c = bad[0]
+            ctx.violation("root-free-newton-disc:%s:%s:coded-model-differs" % (PRIM[key[0]], key), "%s returned a disc without root (certified) where it differs from the coded model (%s): %s %s" % (PRIM[key[0]], field, c["poly"]["name"], c["cmd"][:100]), robj(c))
+        else:
+            c = lst[0]
+            ctx.violation("correspondence:newtonfl:%s:%s" % (key, field), "%s and the extracted coded model (Radius/NewtonCoded.v) differ bitwise in `%s' on %d calls of branch %s; first: %s | %s" % (PRIM[key[0]], field, len(lst), key, c["poly"]["name"], c["cmd"][:100]), robj(c), no_input=True)
+    for key, lst in sorted(efail.items()):
+        st["error-term-too-small:" + key] = len(lst)
+        bad = [c for c in lst[:2] if rootfree(c)]
+        c = (bad or lst)[0]
+        if bad:
+            ctx.violation("root-free-newton-disc:%s:%s:error-term-too-small" % (PRIM[key[0]], key), "%s: |p^ - p(z)| exceeds the error term eps*ap and the returned disc holds no root (certified): %s %s" % (PRIM[key[0]], c["poly"]["name"], c["cmd"][:100]), robj(c))
+        else:
+            ctx.violation("correspondence:newton-error-term:%s" % key, "%s: |p^ - p(z)| exceeds the error term eps*ap the code adds on %d calls of branch %s (hypothesis |p^ - p| <= E of the radius theorem fails); first: %s %s" % (PRIM[key[0]], len(lst), key, c["poly"]["name"], c["cmd"][:100]), robj(c), no_input=True)
+    worst = max([meas.get(k, 0.0) for k in ("uh_cplx_mod", "uh_cdpe_mod", "uh_fap", "uh_dap:d", "uh_dap:m")] + [0.0])
+    if worst > 4.0:
+        ctx.violation("correspondence:newtonfl:modulus-accuracy", "a computed modulus (cplx_mod / cdpe_mod / fap[] / dap[]) is off by %.2f u > 4 u: hypothesis uh of the coded-radius theorems is not met" % worst, {"kind": "newtonfl-meas", "measured": dict(meas)}, no_input=True)
+    c1 = resource.getrusage(resource.RUSAGE_CHILDREN)
+    ncalls = sum(v for k, v in st.items() if k.startswith("calls:"))
+    neq = sum(v for k, v in st.items() if k.startswith("bitwise-equal:"))
+    ctx.log("newtonfl tie: %d calls, %d bitwise equal, model %.1fs, wall %.1fs, child CPU %.1fs" % (ncalls, neq, tmodel, _t.time() - t0, (c1.ru_utime + c1.ru_stime) - (c0.ru_utime + c0.ru_stime)))
+    return {"calls": ncalls, "bitwise_equal": neq, "histogram": dict(st), "measured": {k: round(v, 4) for k, v in meas.items()}, "samples": samples,
+            "wall_seconds": round(_t.time() - t0, 1), "child_cpu_seconds": round((c1.ru_utime + c1.ru_stime) - (c0.ru_utime + c0.ru_stime), 1), "cond": nf_cond_table()}
+
+
+def nf_cond_table():
+    """exact rational evaluation of COND (coq/Radius/NewtonCodedProofs.v) for binary64: smallest n covered, per assumption on uh"""
+    u = Fr(1, 1 << 53); eps = 2 * u
+    def cond(n, um, ua, uh, ur, eta, roundings_eps):
+        g = ((1 + um) * (1 + ua)) ** n - 1
+        theta = (1 - ur) ** 2 * (1 - uh); kap = (1 - uh) * theta ** n
+        e = (1 - ur) ** (1 + roundings_eps) * 4 * n * eps * kap
+        rho = (1 - ur) ** 4
+        c0 = (1 + uh) * g <= rho * (1 - eta) * e
+        c1 = ((1 + uh) - rho * (1 - eta) * (1 - uh)) * (1 + g) + (1 + uh) * g <= rho * (1 - eta) * e
+        return c0 and c1
+    tab = {}; NS = list(range(1, 33)) + [64, 100, 1000]
+    for label, uh in (("uh=4u", 4 * u), ("uh=2.5u", Fr(5, 2) * u)):
+        for prim, re in (("fnewton", 1), ("dnewton", 2)):
+            ok = [n for n in NS if cond(n, Fr(9, 4) * u, u, uh, u, Fr(0), re)]
+            bad = [n for n in NS if n not in ok]
+            tab["%s:%s" % (prim, label)] = {"not_covered": bad, "covered_from": min(ok) if ok else None}
+    return tab
